@@ -1,6 +1,7 @@
 package kit
 
 import (
+	"strings"
 	"go/constant"
 	"go/token"
 	"go/types"
@@ -583,7 +584,7 @@ func OKEdges(call ssa.CallInstruction) []Edge {
 	}
 	// (T, bool) idiom
 	if n := sig.Results().Len(); n >= 2 {
-		if b, ok := sig.Results().At(n-1).Type().Underlying().(*types.Basic); ok && b.Kind() == types.Bool {
+		if b, ok := sig.Results().At(n - 1).Type().Underlying().(*types.Basic); ok && b.Kind() == types.Bool {
 			if e := ResultN(call, n-1); e != nil {
 				return CondEdges(e, true)
 			}
@@ -862,8 +863,29 @@ func CmpEdges(fn *ssa.Function, pred func(b *ssa.BinOp) (bool, bool)) []Edge {
 			default:
 				continue
 			}
+			// the predicate sees the comparison as written and, when that does
+			// not match, its equivalent spellings: operands swapped (a<b ≡ b>a)
+			// and the negated operator (whose true edge is this one's false edge)
 			if m, whenTrue := pred(b); m {
 				out = append(out, CondEdges(b, whenTrue)...)
+				continue
+			}
+			sw := *b
+			sw.X, sw.Y, sw.Op = b.Y, b.X, flipOp(b.Op)
+			if m, whenTrue := pred(&sw); m {
+				out = append(out, CondEdges(b, whenTrue)...)
+				continue
+			}
+			ng := *b
+			ng.Op = negOp(b.Op)
+			if m, whenTrue := pred(&ng); m {
+				out = append(out, CondEdges(b, !whenTrue)...)
+				continue
+			}
+			ns := sw
+			ns.Op = negOp(sw.Op)
+			if m, whenTrue := pred(&ns); m {
+				out = append(out, CondEdges(b, !whenTrue)...)
 			}
 		}
 	}
@@ -1005,8 +1027,28 @@ func FlowsTo(v ssa.Value, sink func(ssa.Instruction, ssa.Value) bool) bool {
 							return true
 						}
 					}
+					// ... and from the loads in the function literals that capture the cell
+					for _, u := range CellUses(a) {
+						if l, ok := u.Instr.(*ssa.UnOp); ok && l.Op == token.MUL && l.Parent() != y.Parent() {
+							if visit(l, depth+1) {
+								return true
+							}
+						}
+					}
+				}
+			case *ssa.Go:
+				if flowIntoCallee(&y.Call, x, func(p ssa.Value) bool { return visit(p, depth+1) }) {
+					return true
+				}
+			case *ssa.Defer:
+				if flowIntoCallee(&y.Call, x, func(p ssa.Value) bool { return visit(p, depth+1) }) {
+					return true
 				}
 			case *ssa.Call:
+				// a statically resolved product function / literal: the value arrives as its parameter
+				if flowIntoCallee(&y.Call, x, func(p ssa.Value) bool { return visit(p, depth+1) }) {
+					return true
+				}
 				// wrapper: value passed as argument, call returns an error
 				isArg := false
 				for _, a := range y.Call.Args {
@@ -1031,6 +1073,41 @@ func FlowsTo(v ssa.Value, sink func(ssa.Instruction, ssa.Value) bool) bool {
 		return false
 	}
 	return visit(v, 0)
+}
+
+// flowIntoCallee continues a forward value flow into the body of a statically
+// resolved callee (a declared function of the analysed module or a function
+// literal called/spawned in place): the argument equal to x arrives as the
+// corresponding parameter.
+func flowIntoCallee(c *ssa.CallCommon, x ssa.Value, visit func(ssa.Value) bool) bool {
+	if c.IsInvoke() {
+		return false
+	}
+	var callee *ssa.Function
+	switch f := c.Value.(type) {
+	case *ssa.Function:
+		callee = f
+	case *ssa.MakeClosure:
+		callee, _ = f.Fn.(*ssa.Function)
+	}
+	if callee == nil || len(callee.Blocks) == 0 {
+		return false
+	}
+	pkg := callee.Pkg
+	for p := callee.Parent(); pkg == nil && p != nil; p = p.Parent() {
+		pkg = p.Pkg
+	}
+	if pkg == nil || !strings.HasPrefix(pkg.Pkg.Path(), Module) {
+		return false
+	}
+	for i, a := range c.Args {
+		if a == x && i < len(callee.Params) {
+			if visit(callee.Params[i]) {
+				return true
+			}
+		}
+	}
+	return false
 }
 
 // DerivesFrom reports whether v is computed from a value accepted by pred,
@@ -1262,4 +1339,455 @@ func ResolveFreeVar(fv *ssa.FreeVar) ssa.Value {
 		}
 	}
 	return nil
+}
+
+// ---------------------------------------------------------------------------
+// Comparison edges independent of how the source spells the test
+
+func flipOp(op token.Token) token.Token {
+	switch op {
+	case token.LSS:
+		return token.GTR
+	case token.GTR:
+		return token.LSS
+	case token.LEQ:
+		return token.GEQ
+	case token.GEQ:
+		return token.LEQ
+	}
+	return op
+}
+
+func negOp(op token.Token) token.Token {
+	switch op {
+	case token.EQL:
+		return token.NEQ
+	case token.NEQ:
+		return token.EQL
+	case token.LSS:
+		return token.GEQ
+	case token.GEQ:
+		return token.LSS
+	case token.GTR:
+		return token.LEQ
+	case token.LEQ:
+		return token.GTR
+	}
+	return op
+}
+
+func intConst(v ssa.Value) (int64, bool) {
+	c, ok := v.(*ssa.Const)
+	if !ok || c.Value == nil {
+		return 0, false
+	}
+	if b, ok := c.Type().Underlying().(*types.Basic); !ok || b.Info()&types.IsInteger == 0 {
+		return 0, false
+	}
+	return c.Int64(), true
+}
+
+// rangeOf returns the set of non-negative integers n with `n op k` as an
+// interval [lo,hi] (hi<0 = unbounded); ok=false when the set is not an
+// interval (n != k with k>0) or is empty.
+func rangeOf(op token.Token, k int64) (lo, hi int64, ok bool) {
+	switch op {
+	case token.EQL:
+		if k < 0 {
+			return 0, 0, false
+		}
+		return k, k, true
+	case token.NEQ:
+		if k == 0 {
+			return 1, -1, true
+		}
+		if k < 0 {
+			return 0, -1, true
+		}
+		return 0, 0, false
+	case token.LSS:
+		if k <= 0 {
+			return 0, 0, false
+		}
+		return 0, k - 1, true
+	case token.LEQ:
+		if k < 0 {
+			return 0, 0, false
+		}
+		return 0, k, true
+	case token.GTR:
+		if k < 0 {
+			return 0, -1, true
+		}
+		return k + 1, -1, true
+	case token.GEQ:
+		if k < 0 {
+			k = 0
+		}
+		return k, -1, true
+	}
+	return 0, 0, false
+}
+
+// RangeEdges returns the branch edges of fn on which a non-negative integer
+// value satisfying isV (typically a len(...)) is known to lie in [lo,hi]
+// (hi<0 = unbounded), whatever comparison operator, constant and operand
+// order the source uses: `len(x)==0`, `len(x)<1`, `0==len(x)`, the false
+// edge of `len(x)>0`, ... all give the [0,0] edge.
+func RangeEdges(fn *ssa.Function, isV func(ssa.Value) bool, lo, hi int64) []Edge {
+	var out []Edge
+	within := func(l, h int64) bool {
+		if l < lo {
+			return false
+		}
+		if hi < 0 {
+			return true
+		}
+		return h >= 0 && h <= hi
+	}
+	for _, blk := range fn.Blocks {
+		for _, in := range blk.Instrs {
+			b, ok := in.(*ssa.BinOp)
+			if !ok {
+				continue
+			}
+			op := b.Op
+			switch op {
+			case token.EQL, token.NEQ, token.LSS, token.LEQ, token.GTR, token.GEQ:
+			default:
+				continue
+			}
+			var k int64
+			if kv, isC := intConst(b.Y); isC && isV(b.X) {
+				k = kv
+			} else if kv, isC := intConst(b.X); isC && isV(b.Y) {
+				k = kv
+				op = flipOp(op)
+			} else {
+				continue
+			}
+			if l, h, ok := rangeOf(op, k); ok && within(l, h) {
+				out = append(out, CondEdges(b, true)...)
+			}
+			if l, h, ok := rangeOf(negOp(op), k); ok && within(l, h) {
+				out = append(out, CondEdges(b, false)...)
+			}
+		}
+	}
+	return out
+}
+
+// LenEdges is RangeEdges for len(x) with x satisfying pred (nil = any).
+func LenEdges(fn *ssa.Function, pred func(ssa.Value) bool, lo, hi int64) []Edge {
+	return RangeEdges(fn, func(v ssa.Value) bool { return IsLenOf(v, pred) }, lo, hi)
+}
+
+// Relations between two integer values.
+const (
+	RelLE = iota
+	RelGE
+	RelEQ
+	RelNE
+	RelLT
+	RelGT
+)
+
+func relImplies(op token.Token, want int) bool {
+	switch op {
+	case token.EQL:
+		return want == RelEQ || want == RelLE || want == RelGE
+	case token.NEQ:
+		return want == RelNE
+	case token.LSS:
+		return want == RelLT || want == RelLE || want == RelNE
+	case token.LEQ:
+		return want == RelLE
+	case token.GTR:
+		return want == RelGT || want == RelGE || want == RelNE
+	case token.GEQ:
+		return want == RelGE
+	}
+	return false
+}
+
+// RelEdges returns the branch edges of fn on which `x want y` is known for
+// an x satisfying isX and a y satisfying isY, for every spelling of the test
+// (either operand order, negated operator on the other edge).
+func RelEdges(fn *ssa.Function, isX, isY func(ssa.Value) bool, want int) []Edge {
+	var out []Edge
+	for _, blk := range fn.Blocks {
+		for _, in := range blk.Instrs {
+			b, ok := in.(*ssa.BinOp)
+			if !ok {
+				continue
+			}
+			op := b.Op
+			switch op {
+			case token.EQL, token.NEQ, token.LSS, token.LEQ, token.GTR, token.GEQ:
+			default:
+				continue
+			}
+			switch {
+			case isX(b.X) && isY(b.Y):
+			case isX(b.Y) && isY(b.X):
+				op = flipOp(op)
+			default:
+				continue
+			}
+			if relImplies(op, want) {
+				out = append(out, CondEdges(b, true)...)
+			}
+			if relImplies(negOp(op), want) {
+				out = append(out, CondEdges(b, false)...)
+			}
+		}
+	}
+	return out
+}
+
+// IntRangeEdges is RangeEdges for a signed integer value: the branch edges on
+// which the value is known to lie in [lo,hi]; use math.MinInt64 / math.MaxInt64
+// for an open end.
+func IntRangeEdges(fn *ssa.Function, isV func(ssa.Value) bool, lo, hi int64) []Edge {
+	const minI, maxI = -1 << 63, 1<<63 - 1
+	rng := func(op token.Token, k int64) (int64, int64, bool) {
+		switch op {
+		case token.EQL:
+			return k, k, true
+		case token.LSS:
+			if k == minI {
+				return 0, 0, false
+			}
+			return minI, k - 1, true
+		case token.LEQ:
+			return minI, k, true
+		case token.GTR:
+			if k == maxI {
+				return 0, 0, false
+			}
+			return k + 1, maxI, true
+		case token.GEQ:
+			return k, maxI, true
+		}
+		return 0, 0, false
+	}
+	var out []Edge
+	for _, blk := range fn.Blocks {
+		for _, in := range blk.Instrs {
+			b, ok := in.(*ssa.BinOp)
+			if !ok {
+				continue
+			}
+			op := b.Op
+			switch op {
+			case token.EQL, token.NEQ, token.LSS, token.LEQ, token.GTR, token.GEQ:
+			default:
+				continue
+			}
+			var k int64
+			if kv, isC := intConst(b.Y); isC && isV(b.X) {
+				k = kv
+			} else if kv, isC := intConst(b.X); isC && isV(b.Y) {
+				k = kv
+				op = flipOp(op)
+			} else {
+				continue
+			}
+			if l, h, ok := rng(op, k); ok && l >= lo && h <= hi {
+				out = append(out, CondEdges(b, true)...)
+			}
+			if l, h, ok := rng(negOp(op), k); ok && l >= lo && h <= hi {
+				out = append(out, CondEdges(b, false)...)
+			}
+		}
+	}
+	return out
+}
+
+// ---------------------------------------------------------------------------
+// Must-do summaries (extract-function tolerant gates)
+
+// MustDo reports whether every path from the entry of fn to a return passes an
+// instruction accepted by isGate, or a call to a statically resolved function
+// of the analysed module that itself must-does (bounded depth). It is the
+// summary "calling fn implies the gate happened".
+func MustDo(fn *ssa.Function, isGate func(ssa.Instruction) bool, depth int) bool {
+	if fn == nil || len(fn.Blocks) == 0 {
+		return false
+	}
+	g := NewGates()
+	for _, in := range GateInstrs(fn, isGate, depth) {
+		g.AddInstr(in, "")
+	}
+	if g.Empty() {
+		return false
+	}
+	for _, ret := range Returns(fn) {
+		if ok, _ := MustPass(ret, g); !ok {
+			return false
+		}
+	}
+	return len(Returns(fn)) > 0
+}
+
+// GateInstrs lists the instructions of fn accepted by isGate plus the calls
+// to module functions that must-do the gate on all their paths.
+func GateInstrs(fn *ssa.Function, isGate func(ssa.Instruction) bool, depth int) []ssa.Instruction {
+	var out []ssa.Instruction
+	for _, b := range fn.Blocks {
+		for _, in := range b.Instrs {
+			if isGate(in) {
+				out = append(out, in)
+				continue
+			}
+			if depth <= 0 {
+				continue
+			}
+			call, ok := in.(*ssa.Call)
+			if !ok {
+				continue
+			}
+			callee := call.Call.StaticCallee()
+			if callee == nil || callee == fn || callee.Pkg == nil || !strings.HasPrefix(callee.Pkg.Pkg.Path(), Module) {
+				continue
+			}
+			if MustDo(callee, isGate, depth-1) {
+				out = append(out, in)
+			}
+		}
+	}
+	return out
+}
+
+// ---------------------------------------------------------------------------
+// Conditions seen through boolean helper functions (extract-predicate tolerant)
+
+// CondGate is "the boolean value Cond equals Want".
+type CondGate struct {
+	Cond ssa.Value
+	Want bool
+}
+
+// CondMatcher finds, in function f, the conditions that establish some fact.
+// orig maps a value of f back to the value the analysed function passed for
+// it (a parameter of a helper maps to the caller's argument; everything else
+// maps to itself), so a matcher written against the analysed function's
+// values also recognises the test inside a helper.
+type CondMatcher func(f *ssa.Function, orig func(ssa.Value) ssa.Value) []CondGate
+
+// DeepCondEdges returns the branch edges of fn on which the fact recognised
+// by m holds: the edges of the conditions m finds in fn itself, plus, for a
+// call b := h(args) to a bool-returning function of the analysed module, the
+// b==true (b==false) edges when h returning true (false) implies the fact —
+// decided by a summary of h: every way h can return that value either
+// returns the matched condition itself or lies behind one of its edges.
+func DeepCondEdges(fn *ssa.Function, m CondMatcher) []Edge {
+	return deepCondEdges(fn, m, func(v ssa.Value) ssa.Value { return v }, 2)
+}
+
+func deepCondEdges(fn *ssa.Function, m CondMatcher, orig func(ssa.Value) ssa.Value, depth int) []Edge {
+	var out []Edge
+	for _, g := range m(fn, orig) {
+		out = append(out, CondEdges(g.Cond, g.Want)...)
+	}
+	if depth <= 0 {
+		return out
+	}
+	for _, b := range fn.Blocks {
+		for _, in := range b.Instrs {
+			call, ok := in.(*ssa.Call)
+			if !ok {
+				continue
+			}
+			h := call.Call.StaticCallee()
+			if h == nil || h == fn || len(h.Blocks) == 0 || h.Pkg == nil || !strings.HasPrefix(h.Pkg.Pkg.Path(), Module) {
+				continue
+			}
+			res := h.Signature.Results()
+			if res.Len() != 1 {
+				continue
+			}
+			if bt, ok := res.At(0).Type().Underlying().(*types.Basic); !ok || bt.Kind() != types.Bool {
+				continue
+			}
+			if len(CondEdges(call, true))+len(CondEdges(call, false)) == 0 {
+				continue
+			}
+			args := call.Call.Args
+			horig := func(v ssa.Value) ssa.Value {
+				if p, ok := v.(*ssa.Parameter); ok && p.Parent() == h {
+					for i, hp := range h.Params {
+						if hp == p && i < len(args) {
+							return orig(args[i])
+						}
+					}
+				}
+				return v
+			}
+			for _, want := range []bool{true, false} {
+				if returnImplies(h, want, m, horig, depth-1) {
+					out = append(out, CondEdges(call, want)...)
+				}
+			}
+		}
+	}
+	return out
+}
+
+// returnImplies: h returning `ret` implies the fact recognised by m.
+func returnImplies(h *ssa.Function, ret bool, m CondMatcher, orig func(ssa.Value) ssa.Value, depth int) bool {
+	gates := m(h, orig)
+	edges := deepCondEdges(h, m, orig, depth)
+	if len(gates) == 0 && len(edges) == 0 {
+		return false
+	}
+	g := NewGates().AddEdges(edges, "")
+	rets := Returns(h)
+	if len(rets) == 0 {
+		return false
+	}
+	type src struct {
+		v  ssa.Value
+		at ssa.Instruction // where this source is selected: the terminator of the phi's predecessor, or the return
+	}
+	for _, r := range rets {
+		var srcs []src
+		seen := map[ssa.Value]bool{}
+		var expand func(v ssa.Value, at ssa.Instruction)
+		expand = func(v ssa.Value, at ssa.Instruction) {
+			if ph, ok := v.(*ssa.Phi); ok && !seen[v] {
+				seen[v] = true
+				for i, e := range ph.Edges {
+					pred := ph.Block().Preds[i]
+					expand(e, pred.Instrs[len(pred.Instrs)-1])
+				}
+				return
+			}
+			srcs = append(srcs, src{v, at})
+		}
+		expand(RetVal(r, 0), r)
+		for _, s := range srcs {
+			if k, ok := s.v.(*ssa.Const); ok && k.Value != nil && k.Value.Kind() == constant.Bool {
+				if constant.BoolVal(k.Value) != ret {
+					continue // this source cannot produce the value in question
+				}
+			}
+			isGate := false
+			for _, gt := range gates {
+				if s.v == gt.Cond && ret == gt.Want {
+					isGate = true
+				}
+				if u, ok := s.v.(*ssa.UnOp); ok && u.Op == token.NOT && u.X == gt.Cond && ret == !gt.Want {
+					isGate = true
+				}
+			}
+			if isGate {
+				continue
+			}
+			if ok, _ := MustPass(s.at, g); !ok || g.Empty() {
+				return false
+			}
+		}
+	}
+	return true
 }
